@@ -170,8 +170,10 @@ def coerce(v: V, t: T) -> V:
         return V(t, [z for i in items for z in i.zs])
     if isinstance(t, TRef) and isinstance(v.t, TRef):
         return V(t, v.zs)       # same reference under another static type (dynamic type lives in the type tag)
-    if isinstance(t, TOpaque) and isinstance(v.t, TOpaque):
-        raise EngineError(f"cannot coerce {v.t} to {t}")
+    if isinstance(t, TOpaque) and isinstance(v.t, TOpaque) and "$empty" not in (t.nm, v.t.nm):
+        # two labels for values of unknown type: an (uninterpreted, equality-preserving) re-labelling
+        f = z3.Function(f"relabel_{v.t.nm}_to_{t.nm}".replace(".", "_").replace(":", "_"), zsort(v.t), zsort(t))
+        return V(t, [f(v.z)])
     raise EngineError(f"cannot coerce {v.t} to {t}")
 
 
